@@ -39,6 +39,7 @@ type c03case struct {
 	Plan    string   `json:"arrival_plan"`
 	GapMs   int      `json:"gap_ms,omitempty"`
 	Stream  []string `json:"stream_head,omitempty"`
+	Pair    string   `json:"runs_next_to_another_syncer,omitempty"`
 }
 
 func genC03cfg(rng *prng.R, cfgIdx int) e2eCfg {
@@ -363,6 +364,21 @@ func c03cfgChild(raw json.RawMessage, scratch string) {
 		wk.ChildCase(i, c)
 		if c.Mode == "e2e" {
 			runC03e2e(r, c, rng)
+		} else if i%4 == 1 && c.Plan != "behind-slow-flush" {
+			// the tool runs one syncer per source: two syncers (own stream, own target connection) work through their
+			// streams at the same time, one command per millisecond, so that their transactions, SELECTs and flushes overlap
+			c.Plan, c.Pair = "per-command", "first of two"
+			if c.N < 120 {
+				c.N = 120
+			}
+			c2 := *c
+			c2.Pair, c2.Stream = "second of two", nil
+			var pair sync.WaitGroup
+			pair.Add(1)
+			go func() { defer pair.Done(); runC03isolated(r, &c2, rng.Split(0x2D)) }()
+			runC03isolated(r, c, rng)
+			pair.Wait()
+			r.Count("syncer_pairs_run_side_by_side", 1)
 		} else {
 			runC03isolated(r, c, rng)
 		}
@@ -559,7 +575,7 @@ func containsInt(xs []int, x int) bool {
 
 func c03(c *wk.Ctx) {
 	r := c.R
-	r.Rule = "command streams from a master grammar (SELECT switches incl. re-selects and the configured target.db, single/multi-key writes in any letter case, PING, MULTI..EXEC blocks, sentinel hello publishes, EVAL/SCRIPT, opinfo, keep-alive newlines) x configurations (db white/black list, key white/black list, filter.lua, target.db, resume, sender.count {1,2,3,1024} x sender.size {1,64,65535,max}) x arrival plans (all at once, one command per ms, arbitrary byte splits, groups separated by 480..520 ms / 1.2 s gaps around the 500 ms flush ticker, a burst queued behind one slow target flush followed by silence); every third stream runs end to end through DbSyncer.Sync() against a scripted master and a loopback model target, the others through the parser+sender pair (hook) on an in-process connection that records Send/Flush boundaries; the data commands applied at the target (tool bookkeeping stripped) must equal, in order and database, the reference filter pipeline over the source stream within 5 s of the last byte. distinct = configuration x arrival plan x observed batch partition"
+	r.Rule = "command streams from a master grammar (SELECT switches incl. re-selects and the configured target.db, single/multi-key writes in any letter case, PING, MULTI..EXEC blocks, sentinel hello publishes, EVAL/SCRIPT, opinfo, keep-alive newlines) x configurations (db white/black list, key white/black list, filter.lua, target.db, resume, sender.count {1,2,3,1024} x sender.size {1,64,65535,max}) x arrival plans (all at once, one command per ms, arbitrary byte splits, groups separated by 480..520 ms / 1.2 s gaps around the 500 ms flush ticker, a burst queued behind one slow target flush followed by silence); every third stream runs end to end through DbSyncer.Sync() against a scripted master and a loopback model target, the others through the parser+sender pair (hook) on an in-process connection that records Send/Flush boundaries; the data commands applied at the target (tool bookkeeping stripped) must equal, in order and database, the reference filter pipeline over the source stream within 5 s of the last byte; every fourth isolated case runs two syncers side by side. distinct = configuration x arrival plan x observed batch partition"
 	onDeath := func(d wk.Death) {
 		if d.Result.TimedOut {
 			r.Inconcl("C03 child watchdog: " + wk.Tail(d.Result.Stderr, 300))
@@ -589,6 +605,7 @@ func c03(c *wk.Ctx) {
 	})
 	r.Floor("streams_e2e", 100)
 	r.Floor("streams_isolated", 200)
+	r.Floor("syncer_pairs_run_side_by_side", 40)
 	r.Floor("trickle_commands_timed", 40)
 	r.Floor("streams_idle_inside_a_transaction", 6)
 	r.Floor("flush_batches_observed", 500)
